@@ -1,0 +1,40 @@
+// SPDX-FileCopyrightText: 2026 The Pion community <https://pion.ly>
+// SPDX-License-Identifier: MIT
+
+//go:build verif
+
+package ice
+
+// Exports for the external verification harness (/verif). Built only with -tags verif.
+
+// VerifPriority returns TypePreference, LocalPreference and Priority of a bare candidate.
+func VerifPriority(
+	typ CandidateType, nt NetworkType, tcp TCPType, relayProto string,
+	hasAgent bool, offset uint16, component uint16, override uint32,
+) (uint16, uint16, uint32) {
+	cand := &candidateBase{
+		candidateType:        typ,
+		networkType:          nt,
+		tcpType:              tcp,
+		component:            component,
+		priorityOverride:     override,
+		relayLocalPreference: relayProtocolPreference(relayProto),
+	}
+	if hasAgent {
+		cand.currAgent = &Agent{tcpPriorityOffset: offset}
+	}
+
+	return cand.TypePreference(), cand.LocalPreference(), cand.Priority()
+}
+
+// VerifPairPriority returns the priority of a pair of the given candidates.
+func VerifPairPriority(local, remote Candidate, controlling bool) uint64 {
+	return newCandidatePair(local, remote, controlling).priority()
+}
+
+// VerifFoundation returns the Foundation of a bare candidate.
+func VerifFoundation(typ CandidateType, address string, nt NetworkType) string {
+	cand := &candidateBase{candidateType: typ, networkType: nt, address: address}
+
+	return cand.Foundation()
+}
